@@ -45,6 +45,19 @@ CHECKS = {
         units=[rapid("TestC01_History", 6000, 400000), plain("TestC01_KnownFindings")],
         min_share=dict(any={"crash_mid_save": ["histories", 0.10], "ack_delayed_across_save": ["histories", 0.20], "crash_outstanding_after_write": ["histories", 0.10]}),
     ),
+    "C03": dict(
+        level="exploration",
+        rule="rapid: 1..8 vBuckets fed concurrently (one feeder goroutine each) with generated sequences of 0..60 events: mutation / deletion / "
+             "expiration / 6 system-event kinds / seqno-advanced / OSO markers; keys empty, binary, reserved prefixes and partial / shifted "
+             "prefixes; CAS full-range plus values within +-1 s / +-1 ns of skipUntil; collection ids configured / unlisted / 0; revNo, flags, "
+             "expiry, lockTime, datatype, deleteTime full-range; single/multi/back-to-back snapshots; skipUntil nil / whole second / with "
+             "nanoseconds / extreme. Oracle: per vBucket the delivered list equals, as a sequence, the input minus reserved-prefix keys minus "
+             "events whose CAS-second is before skipUntil; every field, collection name, event time and offset compared with what was sent. "
+             "non-trivial = >=2 vBuckets, >=1 delivered and >=1 filtered event, >=2 snapshots on some vBucket",
+        assumptions=HIST_ASSUME[:1] + [HIST_ASSUME[2], "Layer A emulates gocbcore's decode-and-dispatch (dcpcomponent.go); the wire path is exercised in C08/C02 on the simulated node"],
+        units=[rapid("TestC03_Delivery", 6000, 500000)],
+        min_share=dict(any={"filtered_skip_until": ["cases", 0.15], "filtered_reserved_key": ["cases", 0.3], "multi_snapshot": ["cases", 0.5]}),
+    ),
     "C04": dict(
         level="exploration",
         rule="rapid op-lists on the Layer-A history engine: per vBucket the delivered events are acknowledged in any order with repetitions "
